@@ -137,13 +137,20 @@ class Variant {
 
   // Assignment from Variant types. Each element of OtherTypes must be
   // convertible to an element of Types. Forwards through non-Variant assignment
-  // operators to apply conversion checks.
-  template <typename... OtherTypes>
+  // operators to apply conversion checks. These overloads do not participate
+  // when Variant<OtherTypes...> is itself an element of Types: being more
+  // specialized than the element assignment above they would otherwise be
+  // selected and unwrap the nested Variant instead of storing it.
+  template <typename... OtherTypes,
+            typename = std::enable_if_t<
+                !HasType<Variant<OtherTypes...>>::value>>
   Variant& operator=(const Variant<OtherTypes...>& other) {
     other.Visit([this](const auto& value) { *this = value; });
     return *this;
   }
-  template <typename... OtherTypes>
+  template <typename... OtherTypes,
+            typename = std::enable_if_t<
+                !HasType<Variant<OtherTypes...>>::value>>
   Variant& operator=(Variant<OtherTypes...>&& other) {
     other.Visit([this](auto&& value) { *this = std::move(value); });
     return *this;
